@@ -6,7 +6,7 @@ use datasketches::tdigest::{TDigest, TDigestMut};
 use crate::rt::Rng;
 use crate::spec::tdigest as spec;
 
-pub const SHAPES: [&str; 17] = [
+pub const SHAPES: [&str; 18] = [
     "sorted",
     "reversed",
     "uniform",
@@ -24,6 +24,7 @@ pub const SHAPES: [&str; 17] = [
     "sawtooth",
     "loguniform-wide",
     "both-signs-near-f64-max",
+    "zero-inflated",
 ];
 
 /// n values of the given shape (finite; callers may sprinkle NaN/inf separately)
@@ -106,6 +107,17 @@ pub fn gen_values(rng: &mut Rng, shape: &str, n: usize) -> Vec<f64> {
             for _ in 0..n {
                 let m = (0.95 + rng.f64() * 0.84) * 1e308;
                 v.push(if rng.chance(0.5) { m } else { -m });
+            }
+        }
+        "zero-inflated" => {
+            // one exact value carries most of the mass (sensor at rest, saturated reading), the rest is continuous
+            let p0 = 0.5 + 0.3 * rng.f64();
+            for _ in 0..n {
+                if rng.chance(p0) {
+                    v.push(0.0);
+                } else {
+                    v.push(rng.normal() * 5.0);
+                }
             }
         }
         "single-value" => {
